@@ -195,6 +195,163 @@ class Facts:
         return "%s:%s" % (f["span"]["file"], line if line else f["span"]["lo"])
 
 
+# ------------------------------------------------------------------ canonical names of private fields
+# The rules name the private fields of the composite caches the way the pinned tree does (`recent`, `protected_size`, `p`, ...).  These
+# names are NOT part of the API; what is, are the public accessors.  So the field names are re-derived from the accessors on every load
+# and, where the tree uses other names, the facts are rewritten to the canonical ones (ADT field lists and every place projection):
+#   <role>_len()  returns the length of list field F        =>  F is called <role>
+#   <role>_cap()  returns the scalar field G (SegmentedCache) =>  G is called <role>_size
+#   Cache::cap()  returns the single scalar field S (2Q, ARC) =>  S is called size
+#   the one remaining usize field of ARC / 2Q                 =>  p / recent_size
+CANON_TYPES = ("lru::segmented::SegmentedCache", "lru::two_queue::TwoQueueCache", "lru::adaptive::AdaptiveCache")
+REST_NAME = {"lru::adaptive::AdaptiveCache": "p", "lru::two_queue::TwoQueueCache": "recent_size"}
+
+
+# setter name -> field name on the pinned tree, where the two differ
+BUILDER_CANON = {
+    ("AdaptiveCacheBuilder", "frequent_hasher"): "freq_hasher", ("AdaptiveCacheBuilder", "frequent_evict_hasher"): "freq_evict_hasher",
+    ("TwoQueueCacheBuilder", "frequent_hasher"): "freq_hasher",
+    ("WTinyLFUCacheBuilder", "protected_cache_size"): "main_cache_protected_size", ("WTinyLFUCacheBuilder", "probationary_cache_size"): "main_cache_probationary_size",
+    ("WTinyLFUCacheBuilder", "window_hasher"): "window_cache_hasher", ("WTinyLFUCacheBuilder", "protected_hasher"): "main_cache_protected_hasher",
+    ("WTinyLFUCacheBuilder", "probationary_hasher"): "main_cache_probationary_hasher",
+}
+
+
+def _setter_target(b, adt):
+    """the field(s) of the builder that receive the setter's argument (directly or wrapped in Some)"""
+    carriers = {2}
+    changed = True
+    while changed:
+        changed = False
+        for blk in b["blocks"]:
+            for st in blk["s"]:
+                if st["k"] != "assign" or st["p"]["p"]:
+                    continue
+                r = st["r"]
+                srcs = []
+                if r["k"] in ("use", "cast") and r.get("o"):
+                    srcs = [r["o"]]
+                if r["k"] == "agg" and str(r.get("adt", "")).endswith("Option"):
+                    srcs = r.get("os", [])
+                if any(o.get("k") in ("move", "copy") and o["p"]["l"] in carriers and not o["p"]["p"] for o in srcs) and st["p"]["l"] not in carriers:
+                    carriers.add(st["p"]["l"])
+                    changed = True
+    out = set()
+    for blk in b["blocks"]:
+        for st in blk["s"]:
+            if st["k"] != "assign":
+                continue
+            r = st["r"]
+            flds = [e["n"] for e in st["p"]["p"] if isinstance(e, dict) and e.get("of") == adt]
+            if flds and r["k"] in ("use", "cast") and r["o"].get("k") in ("move", "copy") and r["o"]["p"]["l"] in carriers:
+                out.add(flds[-1])
+            if r["k"] == "agg" and r.get("adt") == adt:
+                for fld, o in zip(r.get("fields", []), r.get("os", [])):
+                    if o.get("k") in ("move", "copy") and o["p"]["l"] in carriers and not o["p"]["p"]:
+                        out.add(fld)
+    return out
+
+
+def _fields_used(body, adt):
+    out = set()
+
+    def walk(o):
+        if isinstance(o, dict):
+            if o.get("of") == adt and "n" in o and "f" in o:
+                out.add(o["n"])
+            for v in o.values():
+                walk(v)
+        elif isinstance(o, list):
+            for v in o:
+                walk(v)
+    walk(body["blocks"])
+    return out
+
+
+def canonical_field_names(doc):
+    bodies = {b["path"]: b for b in doc["bodies"]}
+    impls = {i["path"]: i for i in doc["impls"]}
+    renames = {}
+    for adt in doc["adts"]:
+        name = adt["name"]
+        if name not in CANON_TYPES or adt["kind"] != "Struct":
+            continue
+        fields = adt["variants"][0]["fields"]
+        lists = [f["n"] for f in fields if f["ty"].startswith("lru::raw::RawLRU<")]
+        scalars = [f["n"] for f in fields if f["ty"] == "usize"]
+        m = {}
+        for fn in doc["fns"]:
+            im = impls.get(fn.get("parent"))
+            if fn.get("kind") != "AssocFn" or not im or im.get("self_head") != name or fn["path"] not in bodies:
+                continue
+            used = _fields_used(bodies[fn["path"]], name)
+            nm = fn["name"]
+            if not im.get("trait") and fn.get("exported") and len(used) == 1:
+                (fld,) = used
+                if nm.endswith("_len") and fld in lists:
+                    m.setdefault(fld, nm[:-4])
+                if nm.endswith("_cap") and fld in scalars:
+                    m.setdefault(fld, nm[:-4] + "_size")
+            if (im.get("trait") or "").endswith("cache_api::Cache") and nm == "cap" and len(used) == 1 and list(used)[0] in scalars:
+                m.setdefault(list(used)[0], "size")
+        rest = [x for x in scalars if x not in m]
+        if name in REST_NAME and len(rest) == 1:
+            m[rest[0]] = REST_NAME[name]
+        m = {old: new for old, new in m.items() if old != new}
+        if m:
+            if len(set(m.values())) != len(m) or (set(m.values()) & (set(f["n"] for f in fields) - set(m))):
+                raise AnalysisError("cannot derive canonical field names of %s: %s" % (name, m))
+            renames[name] = m
+    # builders: the field a public setter `set_<x>` stores its argument into is called <x> (or what the pinned tree calls it)
+    for adt in doc["adts"]:
+        name = adt["name"]
+        if not name.endswith("Builder") or adt["kind"] != "Struct":
+            continue
+        fnames = [f["n"] for f in adt["variants"][0]["fields"]]
+        m = {}
+        for fn in doc["fns"]:
+            im = impls.get(fn.get("parent"))
+            if fn.get("kind") != "AssocFn" or not im or im.get("self_head") != name or im.get("trait") or not fn.get("name", "").startswith("set_") or fn["path"] not in bodies:
+                continue
+            tgt = _setter_target(bodies[fn["path"]], name)
+            if len(tgt) == 1:
+                x = fn["name"][4:]
+                canon = BUILDER_CANON.get((name.split("::")[-1], x), x)
+                (fld,) = tgt
+                if fld != canon:
+                    m[fld] = canon
+        if m:
+            if len(set(m.values())) != len(m) or (set(m.values()) & (set(fnames) - set(m))):
+                raise AnalysisError("cannot derive canonical field names of %s: %s" % (name, m))
+            renames[name] = m
+    if not renames:
+        return {}
+
+    def rewrite(o):
+        if isinstance(o, dict):
+            if "of" in o and "n" in o and o["of"] in renames and o["n"] in renames[o["of"]]:
+                o["n"] = renames[o["of"]][o["n"]]
+            for v in o.values():
+                rewrite(v)
+        elif isinstance(o, list):
+            for v in o:
+                rewrite(v)
+    rewrite(doc["bodies"])
+    rewrite(doc.get("promoted", []))
+    for adt in doc["adts"]:
+        if adt["name"] in renames:
+            for f in adt["variants"][0]["fields"]:
+                f["n"] = renames[adt["name"]].get(f["n"], f["n"])
+    # debug names of aggregates carry field names too
+    for b in doc["bodies"]:
+        for blk in b["blocks"]:
+            for st in blk["s"]:
+                r = st.get("r") or {}
+                if r.get("k") == "agg" and r.get("adt") in renames and r.get("fields"):
+                    r["fields"] = [renames[r["adt"]].get(x, x) for x in r["fields"]]
+    return renames
+
+
 _LOADED = {}
 
 
@@ -209,7 +366,9 @@ def load(cfg, repo=None):
         doc = json.load(fh)
     if doc.get("crate") != "caches":
         raise AnalysisError("fact file %s is not for crate caches" % path)
+    renamed = canonical_field_names(doc)
     f = Facts(cfg, doc, repo)
+    f.renamed_fields = renamed
     f.generated = fresh
     f.gen_s = time.time() - t0
     _LOADED[k] = f
